@@ -454,6 +454,23 @@ class Analyzer:
             if any(a[0] == "json" for a in args[0]):
                 return PY("converted")
             return PY(name)
+        if isinstance(f, ast.Attribute) and isinstance(f.value, ast.Name) and f.value.id == "math" and args:
+            # math.isnan / isinf / floor / ... convert to float first: a JSON integer is unbounded (OverflowError), anything
+            # that is not a number is a TypeError
+            for a in args[0]:
+                tags = a[1] if a[0] == "json" else ({a[1]} if a[0] == "py" else set())
+                if a[0] in ("json",) or (a[0] == "py" and a[1] in ("int",)):
+                    if "int" in tags and a[0] == "json":
+                        saved = EXC_OF_KIND["CONVERT"]
+                        EXC_OF_KIND["CONVERT"] = "OverflowError"
+                        try:
+                            self.sink(e, "CONVERT", "math.%s() of a value that may be an arbitrarily large JSON integer: %s" % (f.attr, ast.unparse(e)))
+                        finally:
+                            EXC_OF_KIND["CONVERT"] = saved
+                    bad = tags & {"dict", "list", "none", "str"}
+                    if bad:
+                        self.sink(e, "CONVERT", "math.%s() of a value that may be %s: %s" % (f.attr, sorted(bad), ast.unparse(e)))
+            return PY("bool" if f.attr.startswith("is") else "float")
         if name in ("len", "str", "repr", "bool", "print"):
             return PY({"len": "int", "str": "str", "repr": "str", "bool": "bool"}.get(name, "none"))
         if name in self.funcs:
